@@ -24,6 +24,7 @@ ENUM_OP = {
     "signature_verify": enums.Operation.SIGNATURE_VERIFY, "mac": enums.Operation.MAC,
     "delete_attribute": enums.Operation.DELETE_ATTRIBUTE, "set_attribute": enums.Operation.SET_ATTRIBUTE,
     "modify_attribute": enums.Operation.MODIFY_ATTRIBUTE, "check": enums.Operation.CHECK, "rekey": enums.Operation.REKEY,
+    "get_wrapped": enums.Operation.GET,
 }
 MASK = [enums.CryptographicUsageMask.ENCRYPT, enums.CryptographicUsageMask.DECRYPT]
 
@@ -63,6 +64,39 @@ def adapters(uid, ver):
                  payloads.GetResponsePayload(object_type=enums.ObjectType.SYMMETRIC_KEY, unique_identifier=uid, secret=sym_secret()),
                  lambda r: isinstance(r, pobj.SymmetricKey) and r.value == KEY and r.cryptographic_length == 256
                  and r.cryptographic_algorithm == enums.CryptographicAlgorithm.AES)
+    def wrapped_secret():
+        kwd = cobj.KeyWrappingData(
+            wrapping_method=enums.WrappingMethod.ENCRYPT_THEN_MAC_SIGN,
+            encryption_key_information=cobj.EncryptionKeyInformation(
+                unique_identifier="enc-" + uid,
+                cryptographic_parameters=cattr.CryptographicParameters(block_cipher_mode=enums.BlockCipherMode.NIST_KEY_WRAP)),
+            mac_signature_key_information=cobj.MACSignatureKeyInformation(
+                unique_identifier="mac-" + uid,
+                cryptographic_parameters=cattr.CryptographicParameters(hashing_algorithm=enums.HashingAlgorithm.SHA_256,
+                                                                       padding_method=enums.PaddingMethod.PSS)),
+            mac_signature=b"mac-" + uid.encode(), iv_counter_nonce=b"iv-" + uid.encode(),
+            encoding_option=enums.EncodingOption.NO_ENCODING)
+        kb = cobj.KeyBlock(key_format_type=misc.KeyFormatType(enums.KeyFormatType.RAW),
+                           key_value=cobj.KeyValue(key_material=cobj.KeyMaterial(KEY[:24])),
+                           cryptographic_algorithm=cattr.CryptographicAlgorithm(enums.CryptographicAlgorithm.AES),
+                           cryptographic_length=cattr.CryptographicLength(128), key_wrapping_data=kwd)
+        return secrets.SymmetricKey(kb)
+
+    def wrapped_ok(r):
+        k = r.key_wrapping_data
+        e, m = k["encryption_key_information"], k["mac_signature_key_information"]
+        ep, mp = e["cryptographic_parameters"], m["cryptographic_parameters"]
+        return (isinstance(r, pobj.SymmetricKey) and r.value == KEY[:24] and k["wrapping_method"] == enums.WrappingMethod.ENCRYPT_THEN_MAC_SIGN
+                and e["unique_identifier"] == "enc-" + uid and m["unique_identifier"] == "mac-" + uid
+                and ep.get("block_cipher_mode") == enums.BlockCipherMode.NIST_KEY_WRAP and ep.get("hashing_algorithm") is None
+                and ep.get("padding_method") is None
+                and mp.get("hashing_algorithm") == enums.HashingAlgorithm.SHA_256 and mp.get("padding_method") == enums.PaddingMethod.PSS
+                and mp.get("block_cipher_mode") is None
+                and k["mac_signature"] == b"mac-" + uid.encode() and k["iv_counter_nonce"] == b"iv-" + uid.encode()
+                and k["encoding_option"] == enums.EncodingOption.NO_ENCODING)
+    A_["get_wrapped"] = (lambda c: c.get(uid),
+                         payloads.GetResponsePayload(object_type=enums.ObjectType.SYMMETRIC_KEY, unique_identifier=uid, secret=wrapped_secret()),
+                         wrapped_ok)
     A_["get_attributes"] = (lambda c: c.get_attributes(uid, ["Name"]),
                             payloads.GetAttributesResponsePayload(unique_identifier=uid, attributes=[name_attr("nm-" + uid)]),
                             lambda r: r[0] == uid and len(r[1]) == 1 and r[1][0].attribute_value.name_value.value == "nm-" + uid)
